@@ -732,7 +732,14 @@ func c02Run(in0 interface{}) Result {
 		return Result{Term: cApp("CContract", site, req, ob), Obs: o, Sig: sig, Nontrivial: o.Status == 200 || o.Status/100 == 3,
 			Key: in.Site + "|" + in.Method + "|" + in.Target + "|" + in.AE, Class: fmt.Sprintf("%s:%s:%d:k%d", in.Site, in.Method, o.Status, o.Kind)}
 	}
-	return Result{Term: cApp("CReq", site, req, ob), Obs: o, Sig: c02Sig(in, p, query), Nontrivial: o.Status == 200 || o.Status/100 == 3,
+	sig := c02Sig(in, p, query)
+	for _, id := range o.IDs {
+		if id == c02OutsideID || id == c02UnknownID {
+			sig += ":token-from-outside-the-root"
+			break
+		}
+	}
+	return Result{Term: cApp("CReq", site, req, ob), Obs: o, Sig: sig, Nontrivial: o.Status == 200 || o.Status/100 == 3,
 		Key: in.Site + "|" + in.Method + "|" + in.Target + "|" + in.AE + fmt.Sprint(in.JSON), Class: fmt.Sprintf("%s:%s:%d:k%d", in.Site, in.Method, o.Status, o.Kind)}
 }
 
@@ -971,6 +978,9 @@ func c02Gen(r *Rand, tier string) []interface{} {
 				add("static", "GET", t, "", false)
 				add("static", "GET", t+"/", "", false)
 			}
+			if (depth <= 2 && r.Chance(50)) || (thorough && r.Chance(40)) {
+				add("browse", "GET", t+r.Pick([]string{"", "/", "/?archive=zip", "/?archive=tar.gz"}), "", r.Chance(20))
+			}
 			if depth < 3 {
 				enum(t, depth+1)
 			}
@@ -1109,7 +1119,7 @@ func c02Gen(r *Rand, tier string) []interface{} {
 func init() {
 	register(&Property{
 		ID: "C02", Imports: "V.Lib V.GoPath V.Gen_C02 V.Gen_C02b V.C02_Model", Judge: "judge", Shard: 150,
-		Rule:   "three real in-process sites (static; browse / with every archive type; browse /dir with zip, tar.gz) rooted in a fixture with files, nested directories, index pages (incl. a directory named index.html and a hidden index page), .gz/.br/.zst siblings (incl. a hidden one and a directory named like one), hard links, odd names, the origin Casketfile inside the root and `internal`-hidden files, plus token files outside the root; raw request lines: exhaustive targets of depth <= 2 (3 sampled / full) over the segment alphabet {a.txt, dir, ., .., empty, %2e, %2E%2e, %2f, backslash, %5c, A.TXT, Casketfile, x} x trailing slash; every directory x archive types / sort orders / JSON; open-redirect shapes (1..5 leading slashes x foreign first segment x dot-dot x directory or file-with-slash); every file x Accept-Encoding subsets; random respellings (dot segments, doubled / encoded slashes and dots, case flips, backslashes, climbing above the root, NUL) x methods x Accept-Encoding decoys x queries. Non-trivial = answers 200 or 3xx",
+		Rule:   "real in-process sites (static; browse / with every archive type; browse /dir with zip, tar.gz; the same root under a site path prefix /pre; the origin Casketfile in a sub-directory of the root / outside it / in a sibling directory named root+x) rooted in a fixture with files, nested directories, index pages (incl. a directory named index.html and a hidden index page), .gz/.br/.zst siblings (incl. a hidden one and a directory named like one), hard links, odd names, the origin Casketfile inside the root and `internal`-hidden files, plus token files outside the root; raw request lines: exhaustive targets of depth <= 2 (3 sampled / full) over the segment alphabet {a.txt, dir, ., .., empty, %2e, %2E%2e, %2f, backslash, %5c, A.TXT, Casketfile, x} x trailing slash (static; sampled on browse with ?archive=); every directory x archive types / sort orders / JSON; open-redirect shapes (1..5 leading slashes x foreign first segment x dot-dot x directory or file-with-slash); every file x Accept-Encoding subsets and decoys; random respellings (dot segments, doubled / encoded slashes and dots, case flips, backslashes, climbing above the root, NUL) x methods x queries. Prefix-site cases are judged against the executable property only (CContract). Non-trivial = answers 200 or 3xx",
 		Gen:    c02Gen,
 		Decode: func(raw json.RawMessage) (interface{}, error) { in := &c02In{}; return in, json.Unmarshal(raw, in) },
 		Run:    c02Run,
